@@ -94,6 +94,26 @@ def cookie_unquote(v):
     return v
 
 
+class _DetOS(object):
+    def __init__(self, real, label):
+        self._real = real
+        self._label = label
+        self._n = 0
+
+    def urandom(self, n):
+        import hashlib
+        self._n += 1
+        out = b''
+        k = 0
+        while len(out) < n:
+            out += hashlib.sha256(('%s|%d|%d' % (self._label, self._n, k)).encode('ascii')).digest()
+            k += 1
+        return out[:n]
+
+    def __getattr__(self, name):
+        return getattr(self._real, name)
+
+
 class World(object):
     def __init__(self, expiry, custom_names, explicit_secret):
         import clastic.middleware.cookie as cm
@@ -113,10 +133,17 @@ class World(object):
             kw.update(arg_name='sess', cookie_name='sid')
         if explicit_secret:
             kw['secret_key'] = KEY
-        self.mw = SignedCookieMiddleware(**kw)
-        fkw = dict(kw)
-        fkw.pop('secret_key', None)
-        self.foreign_mw = SignedCookieMiddleware(**fkw)   # another instance constructed without a secret: own random one
+        # the middleware's source of random secrets is a seam too: a deterministic stream (distinct per instance,
+        # derived from VERIF_SEED), so that the explored state space is the same in every run
+        real_os = cm.os
+        cm.os = _DetOS(real_os, '%s|%s|%s|%s' % (common.seed(), expiry, custom_names, explicit_secret))
+        try:
+            self.mw = SignedCookieMiddleware(**kw)
+            fkw = dict(kw)
+            fkw.pop('secret_key', None)
+            self.foreign_mw = SignedCookieMiddleware(**fkw)   # another instance constructed without a secret: its own
+        finally:
+            cm.os = real_os
         self.cookie_name = self.mw.cookie_name
         arg = self.mw.arg_name
         src = ('def ep(%s, request):\n'
